@@ -170,6 +170,23 @@ func execute(sc Scenario, rng *rand.Rand) (rec, error) {
 	if sc.HasNew {
 		opts = append(opts, res.New(func(r res.NewRequest) { handler("new")(r.(*res.Request)) }))
 	}
+	// an optional handler that is not set: a nil entry for the requested method, next to the * handler
+	hasM := func(l []string, m string) bool {
+		for _, x := range l {
+			if x == m {
+				return true
+			}
+		}
+		return false
+	}
+	if sc.Method != "" && sc.Method != "*" && !(sc.Method == "new" && sc.HasNew) && len(sc.Script)%2 == 0 {
+		if sc.Rtype == "call" && hasM(sc.Calls, "*") && !hasM(sc.Calls, sc.Method) {
+			opts = append(opts, res.Call(sc.Method, nil))
+		}
+		if sc.Rtype == "auth" && hasM(sc.Auths, "*") && !hasM(sc.Auths, sc.Method) {
+			opts = append(opts, res.Auth(sc.Method, nil))
+		}
+	}
 	for _, m := range sc.Auths {
 		k := "auth"
 		if m == "*" {
